@@ -326,62 +326,64 @@ class TanhSinh(QuadratureRule):
         nodes = []
 
         extra = 20
-        ctx.prec += extra
-        tol = ctx.ldexp(1, -prec-10)
-        pi4 = ctx.pi/4
+        orig = ctx.prec
+        try:
+            ctx.prec += extra
+            tol = ctx.ldexp(1, -prec-10)
+            pi4 = ctx.pi/4
 
-        # For simplicity, we work in steps h = 1/2^n, with the first point
-        # offset so that we can reuse the sum from the previous degree
+            # For simplicity, we work in steps h = 1/2^n, with the first point
+            # offset so that we can reuse the sum from the previous degree
 
-        # We define degree 1 to include the "degree 0" steps, including
-        # the point x = 0. (It doesn't work well otherwise; not sure why.)
-        t0 = ctx.ldexp(1, -degree)
-        if degree == 1:
-            #nodes.append((mpf(0), pi4))
-            #nodes.append((-mpf(0), pi4))
-            nodes.append((ctx.zero, ctx.pi/2))
-            h = t0
-        else:
-            h = t0*2
+            # We define degree 1 to include the "degree 0" steps, including
+            # the point x = 0. (It doesn't work well otherwise; not sure why.)
+            t0 = ctx.ldexp(1, -degree)
+            if degree == 1:
+                #nodes.append((mpf(0), pi4))
+                #nodes.append((-mpf(0), pi4))
+                nodes.append((ctx.zero, ctx.pi/2))
+                h = t0
+            else:
+                h = t0*2
 
-        # Since h is fixed, we can compute the next exponential
-        # by simply multiplying by exp(h)
-        expt0 = ctx.exp(t0)
-        a = pi4 * expt0
-        b = pi4 / expt0
-        udelta = ctx.exp(h)
-        urdelta = 1/udelta
+            # Since h is fixed, we can compute the next exponential
+            # by simply multiplying by exp(h)
+            expt0 = ctx.exp(t0)
+            a = pi4 * expt0
+            b = pi4 / expt0
+            udelta = ctx.exp(h)
+            urdelta = 1/udelta
 
-        for k in xrange(0, 20*2**degree+1):
-            # Reference implementation:
-            # t = t0 + k*h
-            # x = tanh(pi/2 * sinh(t))
-            # w = pi/2 * cosh(t) / cosh(pi/2 * sinh(t))**2
+            for k in xrange(0, 20*2**degree+1):
+                # Reference implementation:
+                # t = t0 + k*h
+                # x = tanh(pi/2 * sinh(t))
+                # w = pi/2 * cosh(t) / cosh(pi/2 * sinh(t))**2
 
-            # Fast implementation. Note that c = exp(pi/2 * sinh(t))
-            c = ctx.exp(a-b)
-            d = 1/c
-            co = (c+d)/2
-            si = (c-d)/2
-            x = si / co
-            w = (a+b) / co**2
-            diff = abs(x-1)
-            if diff <= tol:
-                break
+                # Fast implementation. Note that c = exp(pi/2 * sinh(t))
+                c = ctx.exp(a-b)
+                d = 1/c
+                co = (c+d)/2
+                si = (c-d)/2
+                x = si / co
+                w = (a+b) / co**2
+                diff = abs(x-1)
+                if diff <= tol:
+                    break
 
-            nodes.append((x, w))
-            nodes.append((-x, w))
+                nodes.append((x, w))
+                nodes.append((-x, w))
 
-            a *= udelta
-            b *= urdelta
+                a *= udelta
+                b *= urdelta
 
-            if verbose and k % 300 == 150:
-                # Note: the number displayed is rather arbitrary. Should
-                # figure out how to print something that looks more like a
-                # percentage
-                print("Calculating nodes:", ctx.nstr(-ctx.log(diff, 10) / prec))
-
-        ctx.prec -= extra
+                if verbose and k % 300 == 150:
+                    # Note: the number displayed is rather arbitrary. Should
+                    # figure out how to print something that looks more like a
+                    # percentage
+                    print("Calculating nodes:", ctx.nstr(-ctx.log(diff, 10) / prec))
+        finally:
+            ctx.prec = orig
         return nodes
 
 
@@ -421,38 +423,39 @@ class GaussLegendre(QuadratureRule):
         # Fairly high precision might be required for accurate
         # evaluation of the roots
         orig = ctx.prec
-        ctx.prec = int(prec*1.5)
-        if degree == 1:
-            x = ctx.sqrt(ctx.mpf(3)/5)
-            w = ctx.mpf(5)/9
-            nodes = [(-x,w),(ctx.zero,ctx.mpf(8)/9),(x,w)]
+        try:
+            ctx.prec = int(prec*1.5)
+            if degree == 1:
+                x = ctx.sqrt(ctx.mpf(3)/5)
+                w = ctx.mpf(5)/9
+                nodes = [(-x,w),(ctx.zero,ctx.mpf(8)/9),(x,w)]
+                return nodes
+            nodes = []
+            n = 3*2**(degree-1)
+            upto = n//2 + 1
+            for j in xrange(1, upto):
+                # Asymptotic formula for the roots
+                r = ctx.mpf(math.cos(math.pi*(j-0.25)/(n+0.5)))
+                # Newton iteration
+                while 1:
+                    t1, t2 = 1, 0
+                    # Evaluates the Legendre polynomial using its defining
+                    # recurrence relation
+                    for j1 in xrange(1,n+1):
+                        t3, t2, t1 = t2, t1, ((2*j1-1)*r*t1 - (j1-1)*t2)/j1
+                    t4 = n*(r*t1-t2)/(r**2-1)
+                    a = t1/t4
+                    r = r - a
+                    if abs(a) < epsilon:
+                        break
+                x = r
+                w = 2/((1-r**2)*t4**2)
+                if verbose  and j % 30 == 15:
+                    print("Computing nodes (%i of %i)" % (j, upto))
+                nodes.append((x, w))
+                nodes.append((-x, w))
+        finally:
             ctx.prec = orig
-            return nodes
-        nodes = []
-        n = 3*2**(degree-1)
-        upto = n//2 + 1
-        for j in xrange(1, upto):
-            # Asymptotic formula for the roots
-            r = ctx.mpf(math.cos(math.pi*(j-0.25)/(n+0.5)))
-            # Newton iteration
-            while 1:
-                t1, t2 = 1, 0
-                # Evaluates the Legendre polynomial using its defining
-                # recurrence relation
-                for j1 in xrange(1,n+1):
-                    t3, t2, t1 = t2, t1, ((2*j1-1)*r*t1 - (j1-1)*t2)/j1
-                t4 = n*(r*t1-t2)/(r**2-1)
-                a = t1/t4
-                r = r - a
-                if abs(a) < epsilon:
-                    break
-            x = r
-            w = 2/((1-r**2)*t4**2)
-            if verbose  and j % 30 == 15:
-                print("Computing nodes (%i of %i)" % (j, upto))
-            nodes.append((x, w))
-            nodes.append((-x, w))
-        ctx.prec = orig
         return nodes
 
 class QuadratureMethods(object):
